@@ -76,4 +76,26 @@ pub fn run(ctx: &mut Ctx) {
             }
         }
     }
+    // (2) framing fields whose value holds a byte >= 0x80 (obs-text), alone, after and before a valid field of the same name:
+    //     the head is malformed; the field is never dropped and the request never processed as if it were absent
+    let fields: [(&str, &[u8]); 5] = [("content-length", b"5"), ("transfer-encoding", b"chunked"), ("expect", b"100-continue"), ("content-type", b"text/plain"), ("cookie", b"a=b")];
+    for m in ["POST", "GET", "PUT"] {
+        for (name, good) in fields {
+            for hi in [0x80u8, 0x85, 0xa0, 0xe9, 0xff] {
+                for pos in 0..3 {
+                    let mut bad = good.to_vec();
+                    match pos { 0 => bad.insert(0, hi), 1 => bad.push(hi), _ => bad.insert(good.len() / 2, hi) }
+                    for arrangement in 0..3 {
+                        idx += 1;
+                        if !ctx.mine(idx) { continue; }
+                        let mut head = format!("{m} /p HTTP/1.1\r\n").into_bytes();
+                        let line = |v: &[u8]| [name.as_bytes(), b": ", v, b"\r\n"].concat();
+                        match arrangement { 0 => head.extend(line(&bad)), 1 => { head.extend(line(good)); head.extend(line(&bad)); } _ => { head.extend(line(&bad)); head.extend(line(good)); } }
+                        head.extend_from_slice(b"\r\nGET /smuggled HTTP/1.1\r\n\r\n");
+                        case(ctx, "c03", "8192", "", &enc(&head), "eof", "", "0");
+                    }
+                }
+            }
+        }
+    }
 }
